@@ -106,7 +106,8 @@ var (
 	gSchemes   = []string{"http", "https", "ws", "wss", "ftp", "HTTP", "hTTps", "Ws", "FTP", "wsS"}
 	gUserinfos = []string{"", "", "", "user", "user:pw", "u%40x:p%3Aq", "a.b-c_d~", "u!$&'()*+,;=", "U:", "%C3%A9"}
 	gHosts     = []string{"example.com", "EXAMPLE.Org", "a.b.c", "h", "é.com", "日本.jp", "bücher.de", "sub.例え.jp", "[::1]",
-		"[2001:db8::A]", "x-y.z", "a1.b2", "ρ.gr", "привет.рф", "😀.la", "Straße.de"}
+		"[2001:db8::A]", "x-y.z", "a1.b2", "ρ.gr", "привет.рф", "😀.la", "Straße.de",
+		"BÜCHER.example", "Á.com", "ΡΩΣ.gr", "ПРИВЕТ.рф", "Éa.Ñb.org", "ЁЖ.su"}
 	gSegs = []string{"a", "b", "c", "d;p", "e.f", "bb", "c.d", "e;x=1", "f,g", "~h", "i'j", "k(l)", "m*n", "%41", "%C3%A9", "é",
 		"日本", "%7e", "a:b", "@x", "$", "!", "q\"r", "s<t>", "u{v}", "w|x", "y^z", "a`b", "...", ".a", "a.", "..b", "%e2%82%ac", "%3F", "%23", "%25"}
 	gQueries = []string{"q", "a=1&b=2", "x=é", "p=%20", "a/b?c", "k=\"v\"", "a'b", "x=<y>", "", "a=%41", "日本=語", "a+b", "x={y}|^`", "@:", "%26=%3D"}
@@ -326,8 +327,8 @@ var setterValues = map[string][]string{
 	"username": {"", "u", "a b", "a:b", "a@b", "é", "%41", "/", "?#", "user", "U", "a%zz"},
 	"password": {"", "p", "a b", "a:b", "a@b", "é", "%41", "/", "?#", "pw"},
 	"host": {"h.com", "H.COM:8080", "h.com:80", "h.com:443", "h.com:21", "h.com:", "x/y", "a@b", "", ":81", "h:99999", "h:0", "h:00080", "é.com", "[::1]", "[::1]:81", "[::1",
-		"a b", "a?b", "a#b", "h.com:81:82", "xn--é", "a..b", "h.com:abc", "[::A]:443", "Ü.de", "h.com:65535", "h.com:65536", "a:b", "%41.com", "a%2Fb", "h::", "h:::"},
-	"hostname": {"h.com", "H", "", "a:b", "x/y", "é.de", "[::2]", "a@b", "a b", "g.org", "xn--é", "a?b", "a#b", "%41", "Ü.de"},
+		"a b", "a?b", "a#b", "h.com:81:82", "xn--é", "a..b", "h.com:abc", "[::A]:443", "Ü.de", "h.com:65535", "h.com:65536", "a:b", "%41.com", "a%2Fb", "h::", "h:::", "ÑANDÚ.es:81", "ΑΒΓ.gr"},
+	"hostname": {"h.com", "H", "", "a:b", "x/y", "é.de", "[::2]", "a@b", "a b", "g.org", "xn--é", "a?b", "a#b", "%41", "Ü.de", "ŒUVRE.fr", "ДОМ.рф"},
 	"port":     {"", "80", "443", "21", "8080", "0", "65535", "65536", "99999", "8080abc", "abc", " 81", "-1", "+5", "1e3", "81", "00080", "080", "8 0"},
 	"pathname": {"", "/", "a", "/a/b", "a b", "/a/../b/", "/a/./b/.", "..", "a?b", "a#b", "é", "%41", "%zz", "//x", "/a//b", "\\x", "/x/", "/a/b/..", "a/", "/%2e%2e/x", "/;p", "/a:b", "*"},
 	"search":   {"", "?", "a=1", "?a=1", "??a=1", "a=1&b=2", "a b", "é=ü", "#x", "a=1#f", "%zz", "a='b'", "&&", "=", "a=%41", "?x=y&x=z", "a+b=c", "?%26=%3D", "a=\"b\"", "a=<b>"},
